@@ -134,6 +134,12 @@ def pool():
         ("let", "o", new("wo", FILL)),
         # a function *type* declared (and thereby exported) under the name of a function export (C11 only)
         ("type", "run", "tfun", "type run = func(a: u32) -> u32;"),
+        # a string name is exact: `"i"` / `"k"` are not imports of the package although one path ends in them
+        ("let", "c", new(C, named("i", i, True), FILL)),
+        ("let", "c", new(C, named("k", k, True), FILL)),
+        # a spread that only matches arguments which are already given has no effect
+        ("let", "c", new(C, inf("f"), inf("i"), inf("k"), spread("p"))),
+        ("let", "c", new(C, inf("f"), spread("p"), spread("p"))),
     ]
     return s
 
